@@ -58,7 +58,7 @@ Definition replace_list (b : bp) (n : str) (everywhere : bool) : str * list str 
 
 Inductive argref := AInt (z : Z) | AStr (x : str).
 
-(* one iteration of the changeArg loop; returns the possibly rewritten arg reference *)
+(* one iteration of the changeArg loop; the arg reference is resolved afresh in every matched segment *)
 Definition change_arg_one (b : bp) (n : str) (a : argref) (v : val) : (bp * argref) * option err :=
   match name_idx n b with
   | None => ((b, a), Some EValue)
@@ -77,8 +77,8 @@ Definition change_arg_one (b : bp) (n : str) (a : argref) (v : val) : (bp * argr
         | Err e => ((b, a), Some e)
         | Ok i =>
             if Nat.ltb i (length larg)
-            then ((set_args b (upd p (upd i v larg) (args b)), AInt (Z.of_nat i)), None)
-            else ((b, AInt (Z.of_nat i)), Some EIndex)
+            then ((set_args b (upd p (upd i v larg) (args b)), a), None)
+            else ((b, a), Some EIndex)
         end
     | _, _ => ((b, a), Some EIndex)
     end
